@@ -243,8 +243,14 @@ pub fn execute(plan: CheckPlan) -> i32 {
         } else {
             new_violations += 1;
             let job = plan.jobs.iter().find(|j| j.check == v.check);
+            // minimise the first few reports (host ops, environment plan, limits) before writing them
+            let (v, spent) = if new_violations <= 4 { crate::minimise::minimise(v, &plan.opts) } else { (v.clone(), 0) };
+            let v = &v;
             let path = write_replay(v, plan.seed, job);
             lines.push(format!("VIOLATION property={} replay={}", v.property, path));
+            if spent > 0 {
+                lines.push(format!("  (minimised with {spent} candidate runs: {} host ops left)", v.scenario.as_ref().map_or(0, |s| s.ops.len())));
+            }
             lines.push(format!("  class={} signature={}", v.class, v.signature));
             lines.push(format!("  detail={}", v.detail));
         }
